@@ -306,6 +306,9 @@ prop("C08", [
     {"name": "c08_faults", "sources": ["c08_lifecycle.cc"], "c_sources": ["common/netgate.c"], "flavour": "asan",
      "args": {"quick": ["--d1=5", "--d2=0", "--faults=1", "--tick=1000", "--timeout-ms=120000", "--deadline-s=170"],
               "thorough": ["--d1=7", "--d2=0", "--faults=1", "--tick=1000", "--timeout-ms=600000", "--deadline-s=1500"]}},
+    {"name": "c08_handler_timeouts", "sources": ["c08_lifecycle.cc"], "c_sources": ["common/netgate.c"], "flavour": "asan",
+     "args": {"quick": ["--handler-timeout-ms=1200", "--d1=4", "--d2=0", "--timeout-ms=120000", "--deadline-s=170"],
+              "thorough": ["--handler-timeout-ms=1200", "--d1=6", "--d2=4", "--timeout-ms=600000", "--deadline-s=1500"]}},
     {"name": "c08_files", "sources": ["c08_lifecycle.cc"], "c_sources": ["common/netgate.c"], "flavour": "asan",
      "args": {"quick": ["--files=1", "--d1=5", "--d2=0", "--faults=1", "--tick=1000", "--timeout-ms=120000", "--deadline-s=170"],
               "thorough": ["--files=1", "--d1=6", "--d2=4", "--faults=1", "--tick=1000", "--timeout-ms=600000", "--deadline-s=1500"]}},
@@ -315,7 +318,8 @@ prop("C08", [
          "composites send+close / send+shutdown / send+RST with no server step in between (data and FIN in one wake-up), plus "
          "tick(+500 ms) (thorough second part: + hold / release of the server's writes on that connection; files part: "
          "every response is a file sent with Http::serveFile and hold stalls only sendfile(), so a file body is left "
-         "waiting while the client goes away); all "
+         "waiting while the client goes away; handler-time-outs part: the handler arms ResponseWriter::timeoutAfter "
+         "(1.2 s) before it answers); all "
          "histories up to depth d1 on one connection and d2 on two connections (second connection only after the "
          "first: symmetry), each followed by 'all clients close, 6 ticks, run loops dry'; executed on a real "
          "Http::Endpoint (acceptor + 1 worker gated at epoll_wait, virtual time, header/body time-outs 1 s / 2 s) "
